@@ -60,7 +60,7 @@ struct H {
         c.op(std::string("readColumn ") + dtname(t) + (resize ? " resize" : " no-resize") + " form" + str(form) + " | off=" + str(off));
         try {
             if (form == 0) { if (!resize) v.resize(expect); if (r.chance(0.5)) df.readColumn((unsigned)j, v, resize, off); else df.readColumn(cols[j].name, v, resize, off); }
-            else if (form == 1) { expect = 1 + r.u(nrows() - off); if (!resize) v.resize(expect + r.u(2)); df.readColumn(cols[j].name, v, expect, resize, off); }
+            else if (form == 1) { expect = 1 + r.u(nrows() - off); if (!resize) v.resize(expect + r.u(2)); if (r.chance(0.5)) df.readColumn(cols[j].name, v, expect, resize, off); else df.readColumn((unsigned)j, v, expect, resize, off); }
             else { off = 0; expect = nrows(); v.clear(); df.readColumn((unsigned)j, v, true); }
             bool ok = v.size() >= expect; std::string d;
             for (size_t i = 0; ok && i < expect; i++) { MV g = t == DataType::String ? MV() : ofT<T>(t, v[i]); if (g != tab[off + i][j]) { ok = false; d = "row " + str(off + i) + " got " + show(g) + " expected " + show(tab[off + i][j]); } }
